@@ -304,6 +304,24 @@ func (c14) Gen(rng *simrt.Rand, tier string, run int) interface{} {
 		p.Clients = append(p.Clients, ops)
 	}
 	if len(p.Clients) >= 2 && rng.Chance(1, 5) {
+		// one descriptor shared by several clients (a common log file): their
+		// appends through it are operations like any other and none may be lost
+		p.Setup = append(p.Setup, FsOp{K: "create", D: "d0", N: "log", H: 90})
+		if rng.Chance(1, 2) {
+			p.Setup = append(p.Setup, FsOp{K: "append", H: 90, ID: nextChunk(), Len: rng.Pick(1, 8, 100)})
+		}
+		for c := range p.Clients {
+			for k := rng.Intn(3); k > 0; k-- {
+				at := rng.Intn(len(p.Clients[c]) + 1)
+				for at < len(p.Clients[c]) && needsHandle(p.Clients[c][at]) {
+					at++
+				}
+				op := FsOp{K: "append", H: 90, ID: nextChunk(), Len: rng.Pick(1, 8, 8, 100, 5000)}
+				p.Clients[c] = append(append(append([]FsOp{}, p.Clients[c][:at]...), op), p.Clients[c][at:]...)
+			}
+		}
+	}
+	if len(p.Clients) >= 2 && rng.Chance(1, 5) {
 		// a name that one client creates while another deletes it (and creates
 		// it again): Delete of a name that is not there (yet) is refused by
 		// DirFs and is a no-op in MemFs; the model knows both
@@ -424,6 +442,9 @@ func (c14) Exec(pj json.RawMessage, tape *simrt.Tape, keepLog bool) harness.RunO
 			simrt.GoNamed(fmt.Sprintf("c%d", ci), func() {
 				defer wg.Done()
 				handles := map[int]filesys.File{}
+				for h, f := range chk.files {
+					handles[h] = f // descriptors opened by the setup are shared by all clients
+				}
 				for _, op := range p.Clients[ci] {
 					if needsHandle(op) {
 						if _, ok := handles[op.H]; !ok {
